@@ -319,7 +319,7 @@ def flatmap_error_precedence(F, R):
     for f in F.find_fns(r'^iceoryx2_bb_container::flatmap::MetaFlatMap::<.*>::insert_impl$'):
         dup = agg_sites(f, r'FlatMapError$', 'KeyAlreadyExists')
         full = agg_sites(f, r'FlatMapError$', 'IsFull')
-        scan = f.calls(r'Iterator::skip_while$|::get_ref_impl$|::contains_impl$|::get_impl$')
+        scan = f.calls(r'Iterator::(skip_while|any|find|find_map|position|all|filter)$|::get_ref_impl$|::contains_impl$|::get_impl$|::get_mut_ref_impl$')
         ok = bool(dup) and bool(full) and bool(scan) and all(any(f.dominates(sc, e) for sc in scan) for e in full)
         R.ob('DOM', 'DOM::%s::duplicate-key-scan<IsFull' % fnkey(f), ok, 'every IsFull refusal (%d) is dominated by the duplicate-key scan (%d site(s)): full + existing key = KeyAlreadyExists' % (len(full), len(scan)), full[0].where if full else '%s:%s' % (f.file, f.line), f)
 
